@@ -122,8 +122,16 @@ static Outcome runCase(const KV& c)
             st->solve();
             nrm0 = IndepProblem::norm(ip.stopResidual(g, st->solution(), ex), cfg.norm);
         }
-        const bool absOk = cfg.abs_tol > 0 && nrm <= (LD)cfg.abs_tol * (1 + 1e-6L);
-        const bool relOk = cfg.rel_tol > 0 && nrm <= (LD)cfg.rel_tol * nrm0 * (1 + 1e-6L);
+        // two evaluations of a residual agree only up to the rounding level eps*|| |A||u| || of the operator application
+        LD floorN;
+        {
+            RefOp A(g, *ip.geo, *ip.co, ip.dirbc);
+            std::vector<LD> Au, mag;
+            A.apply(u, Au, mag);
+            floorN = 1e3L * 2.2e-16L * IndepProblem::norm(mag, cfg.norm);
+        }
+        const bool absOk = cfg.abs_tol > 0 && nrm <= (LD)cfg.abs_tol * (1 + 1e-6L) + floorN;
+        const bool relOk = cfg.rel_tol > 0 && nrm <= (LD)cfg.rel_tol * nrm0 * (1 + 1e-6L) + floorN;
         o.cls("stop_verified");
         if (relOk && nrm0 > 0)
             o.mx("rel_residual_over_tol", (double)(nrm / nrm0 / cfg.rel_tol));
